@@ -659,6 +659,153 @@ func genSgrCases(c *ex.Ctx, fCell, fSS, fStyle, fVx, fSgr, fQuirks *ast.File, st
 	for i, r := range rws {
 		fmt.Fprintf(&sb, "(%s, %s, %s)%s", ex.LeanStr(r.name), ex.LeanStr(r.from), ex.LeanStr(r.to), sep(i, len(rws)))
 	}
-	sb.WriteString("]\n\nend VaxisModel.Gen.SgrCases\n")
+	sb.WriteString("]\n\n")
+	genSkeletons(c, &sb, fCell, fSS)
+	sb.WriteString("end VaxisModel.Gen.SgrCases\n")
 	c.Write("SgrCases.lean", sb.String())
+}
+
+// ---- statement skeletons (round 2) of the string-level code that Model/SgrBytes.lean and Model/SgrLinks.lean
+// transcribe by hand: normalised source text, never fails (not found ⇒ empty list; the facts_* theorems of
+// Props/C18Bytes.lean say what the model assumes).
+
+func norm(c *ex.Ctx, n ast.Node) string { return strings.Join(strings.Fields(c.Src(n)), " ") }
+
+func stmtTexts(c *ex.Ctx, l []ast.Stmt) []string {
+	out := make([]string, 0, len(l))
+	for _, s := range l {
+		out = append(out, norm(c, s))
+	}
+	return out
+}
+
+// head: the text of a compound statement without its body, other statements whole.
+func head(c *ex.Ctx, s ast.Stmt) string {
+	switch v := s.(type) {
+	case *ast.ForStmt:
+		h := "for"
+		if v.Init != nil {
+			h += " " + norm(c, v.Init) + ";"
+		}
+		if v.Cond != nil {
+			h += " " + norm(c, v.Cond)
+		}
+		if v.Post != nil {
+			h += "; " + norm(c, v.Post)
+		}
+		return h
+	case *ast.RangeStmt:
+		h := "for " + norm(c, v.Key)
+		if v.Value != nil {
+			h += ", " + norm(c, v.Value)
+		}
+		return h + " := range " + norm(c, v.X)
+	case *ast.SwitchStmt:
+		if v.Tag != nil {
+			return "switch " + norm(c, v.Tag)
+		}
+		return "switch"
+	case *ast.TypeSwitchStmt:
+		return "switch " + norm(c, v.Assign)
+	}
+	return norm(c, s)
+}
+
+func genSkeletons(c *ex.Ctx, sb *strings.Builder, fCell, fSS *ast.File) {
+	emit := func(name, doc string, l []string) {
+		q := make([]string, len(l))
+		for i, s := range l {
+			q[i] = ex.LeanStr(s)
+		}
+		fmt.Fprintf(sb, "/-- %s -/\ndef %s : List String := [%s]\n\n", doc, name, strings.Join(q, ",\n  "))
+	}
+	var nssCases, nssCsi, nssOsc, nssDefault, legacy, encEnd, ssEncEnd, parseLoop []string
+	if fd := ex.FindFunc(fSS, "Vaxis", "NewStyledString"); fd != nil && fd.Body != nil {
+		ast.Inspect(fd.Body, func(m ast.Node) bool {
+			sw, ok := m.(*ast.SwitchStmt)
+			if !ok || sw.Tag != nil || len(nssCases) > 0 {
+				return true
+			}
+			for _, st := range sw.Body.List {
+				cc := st.(*ast.CaseClause)
+				cond := "default"
+				if len(cc.List) == 1 {
+					cond = norm(c, cc.List[0])
+				}
+				nssCases = append(nssCases, cond)
+				var texts []string
+				for _, b := range cc.Body {
+					texts = append(texts, head(c, b))
+				}
+				switch {
+				case strings.Contains(cond, `"\x1b["`):
+					nssCsi = texts
+				case strings.Contains(cond, `"\x1b]8;"`):
+					nssOsc = texts
+				case cond == "default":
+					if len(texts) > 0 {
+						nssDefault = texts[:1]
+					}
+				}
+			}
+			return false
+		})
+	}
+	if fd := ex.FindFunc(fSS, "", "legacySGRColor"); fd != nil && fd.Body != nil {
+		for _, st := range fd.Body.List {
+			if sw, ok := st.(*ast.SwitchStmt); ok && sw.Tag == nil {
+				for _, cl := range sw.Body.List {
+					cc := cl.(*ast.CaseClause)
+					if len(cc.List) == 1 {
+						legacy = append(legacy, "case "+norm(c, cc.List[0])+": "+strings.Join(stmtTexts(c, cc.Body), "; "))
+					}
+				}
+			} else {
+				legacy = append(legacy, norm(c, st))
+			}
+		}
+	}
+	tail := func(fd *ast.FuncDecl) []string {
+		if fd == nil || fd.Body == nil {
+			return nil
+		}
+		l := fd.Body.List
+		for i, st := range l {
+			if _, ok := st.(*ast.RangeStmt); ok {
+				return stmtTexts(c, l[i+1:])
+			}
+		}
+		return nil
+	}
+	encEnd = tail(ex.FindFunc(fCell, "", "EncodeCells"))
+	ssEncEnd = tail(ex.FindFunc(fSS, "StyledString", "Encode"))
+	if fd := ex.FindFunc(fCell, "", "ParseStyledString"); fd != nil && fd.Body != nil {
+		for _, st := range fd.Body.List {
+			if rs, ok := st.(*ast.RangeStmt); ok {
+				parseLoop = append(parseLoop, head(c, rs))
+				for _, b := range rs.Body.List {
+					if ts, ok := b.(*ast.TypeSwitchStmt); ok {
+						for _, cl := range ts.Body.List {
+							cc := cl.(*ast.CaseClause)
+							lab := "default"
+							if len(cc.List) == 1 {
+								lab = "case " + norm(c, cc.List[0])
+							}
+							parseLoop = append(parseLoop, lab+": "+strings.Join(stmtTexts(c, cc.Body), "; "))
+						}
+					} else {
+						parseLoop = append(parseLoop, norm(c, b))
+					}
+				}
+			}
+		}
+	}
+	emit("nssCases", "NewStyledString: the conditions of the outer `switch` in the `for len(s) > 0` loop, in order", nssCases)
+	emit("nssCsi", "NewStyledString, case CSI: statement heads (= SgrBytes.hasCsiPrefix / cutM / the two early exits / splitParams / the i-loop)", nssCsi)
+	emit("nssOsc8", "NewStyledString, case OSC 8 (= SgrBytes.hasOsc8Prefix / cutST)", nssOsc)
+	emit("nssDefault", "NewStyledString, default: the clustering call", nssDefault)
+	emit("legacySGRColorBody", "legacySGRColor (= Model.Sgr.ssLegacy)", legacy)
+	emit("encodeCellsTail", "EncodeCells after the loop over the cells (= SgrLinks.encodeFromBL, nil case)", encEnd)
+	emit("ssEncodeTail", "StyledString.Encode after the loop over the cells", ssEncEnd)
+	emit("parseStyledLoop", "ParseStyledString: the loop over the parser's items (= SgrBytes.cellsOf)", parseLoop)
 }
